@@ -13,9 +13,11 @@ def check(ck):
     ck.run(H.check_every_symbol_watched, ck, "C01.R11")
     ck.run(H.check_hash_input_coverage, ck, "C01.R1")
     ck.run(H.check_rule_kinds_contribute, ck, "C01.R2")
+    ck.run(H.check_variable_kinds_described, ck, "C01.R2b")
     ck.run(H.check_digest_consumes_rules, ck, "C01.R3")
     ck.run(H.check_descent_complete, ck, "C01.R4")
     ck.run(H.check_dotted_names, ck, "C01.R4b")
+    ck.run(H.check_names_resolved_where_defined, ck, "C01.R4c")
     ck.run(check_keying, ck, "C01.R5")
     ck.run(H.check_enforcement, ck, "C01.R6")
     ck.run(H.check_version_taint, ck, "C01.R7")
